@@ -54,10 +54,6 @@ Section CtxProofs.
   Variable lin : op -> R -> R.
   Variable bil : op -> R -> R -> R.
   Variable nlin : op -> list R -> R.
-  Hypothesis lin_add : forall o a b, lin o (radd a b) = radd (lin o a) (lin o b).
-  Hypothesis bil_add_l : forall o a a' b, bil o (radd a a') b = radd (bil o a b) (bil o a' b).
-  Hypothesis bil_add_r : forall o a b b', bil o a (radd b b') = radd (bil o a b) (bil o a b').
-  Hypothesis nlin_add : forall o l l', length l = length l' -> nlin o (vadd R radd l l') = radd (nlin o l) (nlin o l').
 
   Notation rv := (rval R).
   Notation L := (RLeaf R).
@@ -133,77 +129,6 @@ Section CtxProofs.
 
   Lemma inrel_length fl s c : inrel fl s c -> length c = length s.
   Proof. induction 1; cbn; auto. Qed.
-
-  (* ---------- the computation graph: value and type of its output node ---------- *)
-  Lemma compile_graph_output_typed nodes output flags out oo priv um :
-    compile_graph nodes output flags = Ok (out, oo) ->
-    propagate_private_annotations nodes flags = Ok (priv, um) ->
-    thm_frag nodes = true ->
-    forall ins_s ins_c env_s v kv0 kv1 kv2,
-    dev nodes ins_s = Some env_s -> znth env_s output = Ok (L v) -> inrel flags ins_s ins_c ->
-    exists env_c vc,
-      dev out (keys_input um kv0 kv1 kv2 ++ ins_c) = Some env_c /\ znth env_c oo = Ok vc /\
-      (if mem output priv then reveal3 R radd vc = Some v /\ shty out oo else vc = L v /\ pubty out oo).
-  Proof.
-    intros H Hppa Hf ins_s ins_c env_s v kv0 kv1 kv2 Hs Hv Hin.
-    unfold compile_graph in H. destruct (compile_graph_map nodes output flags) as [[[o1 oo1] omap]| | |] eqn:Hm; try discriminate.
-    cbn in H. inversion H; subst o1 oo1; clear H.
-    destruct (compile_graph_structure _ _ _ _ _ _ Hm) as (p' & u' & Hp' & _ & _ & _ & _ & _ & Hoo).
-    destruct (compile_graph_map_plan _ _ _ _ Hm) as (resh & H).
-    unfold compile_graph_plan in H. rewrite Hppa in H. cbn [bind] in H.
-    apply bind_ok in H as ([out0 keys] & H0 & H).
-    apply bind_ok in H as ([out1 omap1] & HL & H). apply bind_ok in H as (oo' & _ & H). inversion H; subst; clear H.
-    unfold deval in Hs. destruct (dfrom nodes (Some ([], ins_s))) as [[es is']|] eqn:Hds; [|discriminate].
-    inversion Hs; subst es; clear Hs.
-    pose proof Hppa as Hppa'.
-    unfold propagate_private_annotations in Hppa. apply bind_ok in Hppa as ([[p m] f'] & Hl & Hppa). inversion Hppa; subst; clear Hppa.
-    destruct (ppa_loop_spec _ _ _ _ _ _ _ _ Hl) as [_ Hps].
-    { intros d Hd. discriminate. }
-    { exact (dfrom_bdeps R r0 radd rmul rsub atom catom one lin bil nlin _ _ _ _ Hds). }
-    assert (Init : exists env0, evals (keys_input um kv0 kv1 kv2 ++ ins_c) out0 env0 ins_c /\ keys_ok R keys env0).
-    { destruct um; cbv iota in H0.
-      - apply bind_ok in H0 as ([o k] & He & H0). inversion H0; subst; clear H0.
-        destruct (emit_spec _ _ _ _ _ _ He) as (ts & t & _ & _ & -> & ->).
-        exists ([] ++ [RTup R [kv0; kv1; kv2]]). split.
-        + eapply evals_snoc_input; [apply evals_nil | reflexivity].
-        + intros k Hk. inversion Hk; subst. exists kv0, kv1, kv2. reflexivity.
-      - inversion H0; subst. exists []. split; [apply evals_nil | intros k Hk; discriminate]. }
-    destruct Init as (env0 & Ev0 & K0).
-    destruct (compile_loop_sem R r0 r1 radd rmul rsub ropp Rth atom catom one lin bil nlin lin_add bil_add_l bil_add_r nlin_add
-                _ _ _ _ _ _ _ _ _ _ _ _ _ _ _ _ _ HL Hf Hps Hds eq_refl Ev0 Hin K0) as (env_c & ins_c' & Ev & _ & [_ HI]).
-    { split; [reflexivity|]. intros j vs Hj. destruct (znth_nil_false _ _ Hj). }
-    destruct (HI _ _ Hv) as (k & vc & Hk & Hvc & Hrel & Hsh & Hpb).
-    rewrite Hoo in Hk. inversion Hk; subst k.
-    exists env_c, vc. split.
-    { unfold deval. unfold MpcCompileBase.evals in Ev. rewrite Ev. reflexivity. }
-    split; [exact Hvc|].
-    match goal with |- context [mem output ?pp] => remember (mem output pp) as bb eqn:Hbb end. destruct bb.
-    - destruct Hrel as (x & a & b & c & Hx & -> & Hsum). inversion Hx; subst. split; [reflexivity | auto].
-    - split; [exact Hrel | auto].
-  Qed.
-
-  (* the PRF-multiplication key input is annotated *)
-  Lemma compile_graph_mul_annot nodes output flags out oo priv :
-    compile_graph nodes output flags = Ok (out, oo) ->
-    propagate_private_annotations nodes flags = Ok (priv, true) ->
-    contains_node_annotation out APRFMultiplication = true.
-  Proof.
-    intros H Hppa. unfold compile_graph in H.
-    destruct (compile_graph_map nodes output flags) as [[[o1 oo1] omap]| | |] eqn:Hm; try discriminate.
-    cbn in H. inversion H; subst o1 oo1; clear H.
-    unfold compile_graph_map in Hm. rewrite Hppa in Hm. cbn [bind] in Hm.
-    apply bind_ok in Hm as ([out0 keys] & H0 & Hm). apply bind_ok in Hm as (resh & _ & Hm).
-    apply bind_ok in Hm as ([out1 omap1] & HL & Hm). apply bind_ok in Hm as (oo' & _ & Hm). inversion Hm; subst; clear Hm.
-    apply bind_ok in H0 as ([o k] & He & H0). inversion H0; subst; clear H0.
-    destruct (emit_spec _ _ _ _ _ _ He) as (ts & t & _ & _ & -> & ->).
-    destruct (compile_loop_static _ _ _ _ _ _ _ _ _ HL) as ([[_ X] _] & _).
-    - reflexivity.
-    - intros j k Hk. destruct (znth_nil_false _ _ Hk).
-    - intros j j' a b Ha. destruct (znth_nil_false _ _ Ha).
-    - intros j k Hk. destruct (znth_nil_false _ _ Hk).
-    - destruct (X 0 _ (znth_last [] _)) as (nd' & Hn & (_ & _ & _ & Hincl)).
-      eapply contains_of_znth; [exact Hn|]. apply Hincl. now left.
-  Qed.
 
   (* ---------- share_all_inputs: the loop over the Input nodes of the source graph ---------- *)
   Lemma share_inputs_loop_length nodes : forall sts k out out' args,
@@ -553,6 +478,83 @@ Section CtxProofs.
   Proof.
     intros Lt H. unfold infer in H; cbn [arity] in H. change (zlen [t] =? 1) with true in H. cbv iota in H.
     unfold infer_op in H; cbn [nth] in H. destruct t; try discriminate.
+  Qed.
+
+  (* the operations of the theorem fragment are additive *)
+  Hypothesis lin_add : forall o a b, lin o (radd a b) = radd (lin o a) (lin o b).
+  Hypothesis bil_add_l : forall o a a' b, bil o (radd a a') b = radd (bil o a b) (bil o a' b).
+  Hypothesis bil_add_r : forall o a b b', bil o a (radd b b') = radd (bil o a b) (bil o a b').
+  Hypothesis nlin_add : forall o l l', length l = length l' -> nlin o (vadd R radd l l') = radd (nlin o l) (nlin o l').
+
+  (* ---------- the computation graph: value and type of its output node ---------- *)
+  Lemma compile_graph_output_typed nodes output flags out oo priv um :
+    compile_graph nodes output flags = Ok (out, oo) ->
+    propagate_private_annotations nodes flags = Ok (priv, um) ->
+    thm_frag nodes = true ->
+    forall ins_s ins_c env_s v kv0 kv1 kv2,
+    dev nodes ins_s = Some env_s -> znth env_s output = Ok (L v) -> inrel flags ins_s ins_c ->
+    exists env_c vc,
+      dev out (keys_input um kv0 kv1 kv2 ++ ins_c) = Some env_c /\ znth env_c oo = Ok vc /\
+      (if mem output priv then reveal3 R radd vc = Some v /\ shty out oo else vc = L v /\ pubty out oo).
+  Proof.
+    intros H Hppa Hf ins_s ins_c env_s v kv0 kv1 kv2 Hs Hv Hin.
+    unfold compile_graph in H. destruct (compile_graph_map nodes output flags) as [[[o1 oo1] omap]| | |] eqn:Hm; try discriminate.
+    cbn in H. inversion H; subst o1 oo1; clear H.
+    destruct (compile_graph_structure _ _ _ _ _ _ Hm) as (p' & u' & Hp' & _ & _ & _ & _ & _ & Hoo).
+    destruct (compile_graph_map_plan _ _ _ _ Hm) as (resh & H).
+    unfold compile_graph_plan in H. rewrite Hppa in H. cbn [bind] in H.
+    apply bind_ok in H as ([out0 keys] & H0 & H).
+    apply bind_ok in H as ([out1 omap1] & HL & H). apply bind_ok in H as (oo' & _ & H). inversion H; subst; clear H.
+    unfold deval in Hs. destruct (dfrom nodes (Some ([], ins_s))) as [[es is']|] eqn:Hds; [|discriminate].
+    inversion Hs; subst es; clear Hs.
+    pose proof Hppa as Hppa'.
+    unfold propagate_private_annotations in Hppa. apply bind_ok in Hppa as ([[p m] f'] & Hl & Hppa). inversion Hppa; subst; clear Hppa.
+    destruct (ppa_loop_spec _ _ _ _ _ _ _ _ Hl) as [_ Hps].
+    { intros d Hd. discriminate. }
+    { exact (dfrom_bdeps R r0 radd rmul rsub atom catom one lin bil nlin _ _ _ _ Hds). }
+    assert (Init : exists env0, evals (keys_input um kv0 kv1 kv2 ++ ins_c) out0 env0 ins_c /\ keys_ok R keys env0).
+    { destruct um; cbv iota in H0.
+      - apply bind_ok in H0 as ([o k] & He & H0). inversion H0; subst; clear H0.
+        destruct (emit_spec _ _ _ _ _ _ He) as (ts & t & _ & _ & -> & ->).
+        exists ([] ++ [RTup R [kv0; kv1; kv2]]). split.
+        + eapply evals_snoc_input; [apply evals_nil | reflexivity].
+        + intros k Hk. inversion Hk; subst. exists kv0, kv1, kv2. reflexivity.
+      - inversion H0; subst. exists []. split; [apply evals_nil | intros k Hk; discriminate]. }
+    destruct Init as (env0 & Ev0 & K0).
+    destruct (compile_loop_sem R r0 r1 radd rmul rsub ropp Rth atom catom one lin bil nlin lin_add bil_add_l bil_add_r nlin_add
+                _ _ _ _ _ _ _ _ _ _ _ _ _ _ _ _ _ HL Hf Hps Hds eq_refl Ev0 Hin K0) as (env_c & ins_c' & Ev & _ & [_ HI]).
+    { split; [reflexivity|]. intros j vs Hj. destruct (znth_nil_false _ _ Hj). }
+    destruct (HI _ _ Hv) as (k & vc & Hk & Hvc & Hrel & Hsh & Hpb).
+    rewrite Hoo in Hk. inversion Hk; subst k.
+    exists env_c, vc. split.
+    { unfold deval. unfold MpcCompileBase.evals in Ev. rewrite Ev. reflexivity. }
+    split; [exact Hvc|].
+    match goal with |- context [mem output ?pp] => remember (mem output pp) as bb eqn:Hbb end. destruct bb.
+    - destruct Hrel as (x & a & b & c & Hx & -> & Hsum). inversion Hx; subst. split; [reflexivity | auto].
+    - split; [exact Hrel | auto].
+  Qed.
+
+  (* the PRF-multiplication key input is annotated *)
+  Lemma compile_graph_mul_annot nodes output flags out oo priv :
+    compile_graph nodes output flags = Ok (out, oo) ->
+    propagate_private_annotations nodes flags = Ok (priv, true) ->
+    contains_node_annotation out APRFMultiplication = true.
+  Proof.
+    intros H Hppa. unfold compile_graph in H.
+    destruct (compile_graph_map nodes output flags) as [[[o1 oo1] omap]| | |] eqn:Hm; try discriminate.
+    cbn in H. inversion H; subst o1 oo1; clear H.
+    unfold compile_graph_map in Hm. rewrite Hppa in Hm. cbn [bind] in Hm.
+    apply bind_ok in Hm as ([out0 keys] & H0 & Hm). apply bind_ok in Hm as (resh & _ & Hm).
+    apply bind_ok in Hm as ([out1 omap1] & HL & Hm). apply bind_ok in Hm as (oo' & _ & Hm). inversion Hm; subst; clear Hm.
+    apply bind_ok in H0 as ([o k] & He & H0). inversion H0; subst; clear H0.
+    destruct (emit_spec _ _ _ _ _ _ He) as (ts & t & _ & _ & -> & ->).
+    destruct (compile_loop_static _ _ _ _ _ _ _ _ _ HL) as ([[_ X] _] & _).
+    - reflexivity.
+    - intros j k Hk. destruct (znth_nil_false _ _ Hk).
+    - intros j j' a b Ha. destruct (znth_nil_false _ _ Ha).
+    - intros j k Hk. destruct (znth_nil_false _ _ Hk).
+    - destruct (X 0 _ (znth_last [] _)) as (nd' & Hn & (_ & _ & _ & Hincl)).
+      eapply contains_of_znth; [exact Hn|]. apply Hincl. now left.
   Qed.
 
   (* ---------- compile_to_mpc_context ---------- *)
